@@ -13,7 +13,7 @@ use std::sync::{Arc, Mutex};
 fn arr32(v: &[u8]) -> [u8; 32] { let mut a = [0u8; 32]; a.copy_from_slice(v); a }
 
 #[derive(Clone)]
-enum U { Reg { app: Vec<u8>, chal: Vec<u8>, handle: Vec<u8> }, Auth { app: Vec<u8>, chal: Vec<u8>, handle: Vec<u8>, counter: u32, presence: bool, param: u8 } }
+enum U { Reg { app: Vec<u8>, chal: Vec<u8>, handle: Vec<u8> }, Auth { app: Vec<u8>, chal: Vec<u8>, handle: Vec<u8>, counter: u32, presence: u8, param: u8 } }
 
 fn run<S: Inner + 'static>(ctx: &mut Ctx, kind: Kind, inner: S, ops: &[U]) {
     let log = new_log();
@@ -38,12 +38,12 @@ fn run<S: Inner + 'static>(ctx: &mut Ctx, kind: Kind, inner: S, ops: &[U]) {
             }
             U::Auth { app, chal, handle, counter, presence, param } => {
                 let req = AuthenticationRequest { parameter: AuthenticationParameter::from(*param), challenge: arr32(chal), application: arr32(app), key_handle: handle.clone() };
-                let flags = if *presence { Flags::UP } else { Flags::empty() };
+                let flags = Flags::from_bits_truncate(*presence);
                 let res = guarded(|| block_on(U2fApi::authenticate(&auth, req, *counter, flags)));
                 let rs = match res { None => "panic".to_string(), Some(Err(e)) => format!("err:{:?}", e),
                     Some(Ok(r)) => { let (p, c, s) = (u8::from(r.user_presence), r.counter, r.signature.clone()); format!("ok:{}:{}:{}:{}", p, c, hexf(&s), hexf(&r.encode())) } };
                 ctx.stat(&format!("u2f.auth.{}", rs.split(':').next().unwrap()));
-                ctx.line(&format!("u2f.auth {} {} {} {} {} {}", hexf(app), hexf(chal), hexf(handle), counter, *presence as u8, param), &format!("res={} store={}", rs, snap_pub(&auth.store().inner.all())));
+                ctx.line(&format!("u2f.auth {} {} {} {} {} {}", hexf(app), hexf(chal), hexf(handle), counter, *presence, param), &format!("res={} store={}", rs, snap_pub(&auth.store().inner.all())));
             }
         }
     }
@@ -83,7 +83,10 @@ pub fn gen(ctx: &mut Ctx) {
     // ---- ceremonies
     for i in 0..n {
         let kind = [Kind::RefFull, Kind::Map, Kind::RefFull, Kind::Slot][i % 4];
-        let apps: Vec<Vec<u8>> = (0..if kind == Kind::RefFull { 2 } else { 1 }).map(|_| ctx.rng.bytes(32)).collect();
+        let apps: Vec<Vec<u8>> = (0..if kind == Kind::RefFull { 2 } else { 1 }).map(|_| match ctx.rng.below(4) {
+            0 => vec![0x41 + ctx.rng.below(26) as u8; 32],                       // printable ASCII: valid UTF-8 text
+            1 => (0..32).map(|_| ctx.rng.below(0x7f) as u8).collect(),           // low bytes
+            _ => ctx.rng.bytes(32) }).collect();
         let mut regs: Vec<(Vec<u8>, Vec<u8>)> = vec![];
         let mut ops = vec![];
         for _ in 0..ctx.rng.range(2, 8) {
@@ -97,12 +100,12 @@ pub fn gen(ctx: &mut Ctx) {
                 ops.push(U::Reg { app, chal: ctx.rng.bytes(32), handle });
             } else {
                 let (app, handle) = match ctx.rng.below(5) {
-                    0 => (ctx.rng.pick(&apps).clone(), ctx.rng.bytes(16)),                        // unknown key handle
+                    0 => (ctx.rng.pick(&apps).clone(), if ctx.rng.bool() { ctx.rng.bytes(16) } else { vec![] }),   // unknown key handle (also the empty one)
                     1 if apps.len() > 1 => { let (a, h) = ctx.rng.pick(&regs).clone(); (apps.iter().find(|x| **x != a).unwrap().clone(), h) }   // known handle, other application
                     _ => ctx.rng.pick(&regs).clone(),
                 };
                 let counter = *ctx.rng.pick(&[0u32, 1, 255, 256, 65536, 1 << 31, u32::MAX, 12345678]);
-                ops.push(U::Auth { app, chal: ctx.rng.bytes(32), handle, counter, presence: ctx.rng.bool(), param: *ctx.rng.pick(&[3u8, 7, 8]) });
+                ops.push(U::Auth { app, chal: ctx.rng.bytes(32), handle, counter, presence: *ctx.rng.pick(&[0x01u8, 0x00, 0x05, 0x04, 0x01, 0x1d]), param: *ctx.rng.pick(&[3u8, 7, 8]) });
             }
         }
         run_kind(ctx, kind, &ops);
